@@ -2,6 +2,11 @@
 EXTENDS GoChannelImpl
 \* two publishers, one topic, one registered and one late subscription
 PubMsg2 == [p \in {"p1", "p2"} |-> IF p = "p1" THEN "m1" ELSE "m2"]
+NoRest == [p \in {"p1", "p2"} |-> << >>]
+\* one Publish call with two messages (m1, m2), a third message from another publisher
+PubMsgB == [p \in {"p1", "p2"} |-> IF p = "p1" THEN "m1" ELSE "m3"]
+RestB == [p \in {"p1", "p2"} |-> IF p = "p1" THEN <<"m2">> ELSE << >>]
+Topic3 == [m \in {"m1", "m2", "m3"} |-> "t"]
 Topic1 == [m \in {"m1", "m2"} |-> "t"]
 SubT1 == [s \in {"s1", "s2"} |-> "t"]
 NoRepub2 == [s \in {"s1", "s2"} |-> "none"]
